@@ -51,6 +51,9 @@ type Rule struct {
 	Set bool `json:"s"`
 	K   int  `json:"k"`
 	V   int  `json:"v"`
+	// Fail > 0: an element that fails when applied — 1 add-tag on a missing point, 2 remove-tag on a missing
+	// point, 3 AddFeatures with an invalid feature ID (K is then 400.., the key of nothing)
+	Fail int `json:"f"`
 }
 
 type Req struct {
@@ -58,6 +61,9 @@ type Req struct {
 	Wid   int    `json:"wid"`
 	Rules []Rule `json:"rules"`
 	Shell bool   `json:"shell"` // send a blind single set as `add-tag`
+	// Atomic: built as a MergedChange of one part per rule, so a failing part leaves nothing applied; in the op
+	// text the failing rules are then written first (same outcome for the model's stop-at-first-failure list)
+	Atomic bool `json:"atomic"`
 }
 
 type Round struct {
@@ -80,6 +86,9 @@ func (r Rule) text() string {
 			g = fmt.Sprintf("%d!", r.G)
 		}
 	}
+	if r.Fail > 0 {
+		return fmt.Sprintf("%s~%d", g, r.K)
+	}
 	if r.Set {
 		return fmt.Sprintf("%s+%d=%d", g, r.K, r.V)
 	}
@@ -95,9 +104,18 @@ func (q Req) text() string {
 	case "l":
 		return "l"
 	}
-	rs := make([]string, len(q.Rules))
-	for i, r := range q.Rules {
-		rs[i] = r.text()
+	var rs []string
+	if q.Atomic {
+		for _, r := range q.Rules {
+			if r.Fail > 0 {
+				rs = append(rs, r.text())
+			}
+		}
+	}
+	for _, r := range q.Rules {
+		if !(q.Atomic && r.Fail > 0) {
+			rs = append(rs, r.text())
+		}
 	}
 	return fmt.Sprintf("c%d(%s)", q.Wid, strings.Join(rs, ";"))
 }
@@ -154,24 +172,37 @@ func hasKey(w b6.World, k int) bool {
 func init() {
 	functions.Functions()["verif-c40-change"] = func(c *api.Context, n int) (ingest.Change, error) {
 		rs := current
+		q := rs.reqs[n]
 		var parts ingest.MergedChange
-		allSet := true
+		plain := true // expressible as one AddTags list (sets and add-tag-on-missing only)
 		var sets ingest.AddTags
-		for _, r := range rs.reqs[n].Rules {
+		for _, r := range q.Rules {
 			if r.G >= 0 && hasKey(c.World, r.G) != r.GP {
 				continue
 			}
-			if r.Set {
+			switch {
+			case r.Fail == 1:
+				t := ingest.AddTag{ID: pid(50 + r.K%8), Tag: b6.Tag{Key: "t0", Value: b6.NewStringExpression("x")}}
+				parts = append(parts, ingest.AddTags{t})
+				sets = append(sets, t)
+			case r.Fail == 2:
+				plain = false
+				parts = append(parts, ingest.RemoveTags{ingest.RemoveTag{ID: pid(50 + r.K%8), Key: "t0"}})
+			case r.Fail == 3:
+				plain = false
+				bad := ingest.AddFeatures([]ingest.Feature{&ingest.GenericFeature{ID: b6.FeatureIDInvalid}})
+				parts = append(parts, &bad)
+			case r.Set:
 				t := ingest.AddTag{ID: pid(r.K / 8), Tag: b6.Tag{Key: tagKey(r.K), Value: b6.NewStringExpression(fmt.Sprintf("%d", r.V))}}
 				parts = append(parts, ingest.AddTags{t})
 				sets = append(sets, t)
-			} else {
-				allSet = false
+			default:
+				plain = false
 				parts = append(parts, ingest.RemoveTags{ingest.RemoveTag{ID: pid(r.K / 8), Key: tagKey(r.K)}})
 			}
 		}
 		rs.rendezvous()
-		if allSet {
+		if plain && !q.Atomic {
 			return sets, nil
 		}
 		return parts, nil
@@ -243,8 +274,31 @@ func request(i int, q Req) *pb.EvaluateRequestProto {
 	return &pb.EvaluateRequestProto{Request: mustProto(e), Version: b6.ApiVersion, Root: b6.NewProtoFromFeatureID(root(q.Wid))}
 }
 
+func mayFail(q Req) bool {
+	for _, r := range q.Rules {
+		if r.Fail > 0 {
+			return true
+		}
+	}
+	return false
+}
+
+// normalise makes the request expressible: a failing element inside a list that is not a pure AddTags list
+// needs the atomic (MergedChange) form
+func normalise(q *Req) {
+	if !mayFail(*q) {
+		q.Atomic = false
+		return
+	}
+	for _, r := range q.Rules {
+		if r.Fail > 1 || (r.Fail == 0 && !r.Set) {
+			q.Atomic = true
+		}
+	}
+}
+
 func shellForm(q Req) bool {
-	return q.Kind == "c" && q.Shell && len(q.Rules) == 1 && q.Rules[0].G < 0 && q.Rules[0].Set
+	return q.Kind == "c" && q.Shell && len(q.Rules) == 1 && q.Rules[0].G < 0 && q.Rules[0].Set && q.Rules[0].Fail == 0
 }
 
 func (s *sut) issue(q Req, request *pb.EvaluateRequestProto) {
@@ -253,7 +307,7 @@ func (s *sut) issue(q Req, request *pb.EvaluateRequestProto) {
 	case "q":
 		s.svc.Evaluate(ctx, request)
 	case "c":
-		if _, err := s.svc.Evaluate(ctx, request); err != nil {
+		if _, err := s.svc.Evaluate(ctx, request); err != nil && !mayFail(q) {
 			panic("harness: change request failed: " + err.Error())
 		}
 	case "d":
@@ -470,6 +524,21 @@ func randomRound(c *hx.Ctx) Round {
 				}
 				q.Rules = append(q.Rules, rule)
 			}
+			if r.Chance(1, 4) { // a failing element somewhere in the change
+				f := Rule{G: -1, K: 400 + r.Intn(8), Fail: 1 + r.Intn(3)}
+				if r.Chance(1, 5) {
+					f.G = guardKey()
+					f.GP = r.Bool()
+				}
+				at := r.Intn(len(q.Rules) + 1)
+				q.Rules = append(q.Rules[:at], append([]Rule{f}, q.Rules[at:]...)...)
+				q.Atomic = r.Bool()
+				c.Note(fmt.Sprintf("req:failing-element:kind=%d:at=%d/%d", f.Fail, at, len(q.Rules)))
+			}
+			normalise(&q)
+			if q.Atomic {
+				c.Note("req:failing-atomic")
+			}
 			q.Shell = r.Bool()
 			guarded := false
 			for _, rule := range q.Rules {
@@ -522,6 +591,19 @@ func corpus(c *hx.Ctx) {
 	p.Rounds = append(p.Rounds, Round{Rendezvous: true, Reqs: []Req{
 		{Kind: "c", Wid: 1, Rules: []Rule{{G: -1, Set: true, K: 9, V: 3}}},
 		{Kind: "d", Wid: 1}, {Kind: "q", Wid: 1}}})
+	// changes that FAIL while being applied (the error path of the upgrade): alone, next to a reader and a
+	// writer, as the failing second part of a merged change, as a partially applied AddTags list
+	failOne := Req{Kind: "c", Wid: 0, Rules: []Rule{{G: -1, K: 400, Fail: 1}}}
+	p.Rounds = append(p.Rounds, Round{Reqs: []Req{failOne}})
+	p.Rounds = append(p.Rounds, Round{Reqs: []Req{failOne, {Kind: "q", Wid: 0}}})
+	for i := 0; i < 3; i++ {
+		p.Rounds = append(p.Rounds, Round{Rendezvous: true, Reqs: []Req{
+			failOne, {Kind: "q", Wid: 0}, {Kind: "c", Wid: 0, Rules: []Rule{{G: -1, Set: true, K: 2, V: 5 + i}}}, {Kind: "q", Wid: 0}}})
+	}
+	merged := Req{Kind: "c", Wid: 0, Atomic: true, Rules: []Rule{{G: -1, Set: true, K: 3, V: 1}, {G: -1, K: 401, Fail: 3}, {G: -1, K: 10}}}
+	partial := Req{Kind: "c", Wid: 0, Rules: []Rule{{G: -1, Set: true, K: 9, V: 4}, {G: -1, K: 402, Fail: 1}, {G: -1, Set: true, K: 10, V: 4}}}
+	p.Rounds = append(p.Rounds, Round{Rendezvous: true, Reqs: []Req{merged, {Kind: "q", Wid: 0}, partial}})
+	p.Rounds = append(p.Rounds, Round{Reqs: []Req{failOne, failOne, {Kind: "c", Wid: 1, Rules: []Rule{{G: -1, K: 403, Fail: 2}}}, {Kind: "l"}}})
 	execute(c, p)
 	c.NonTrivial()
 }
